@@ -260,7 +260,7 @@ add("sep_dfcc", ["C09", "C02", "C01"], ["tu/sep_dfcc.c"], "h_sep_dfcc", mode="df
 # ---------------------------------------------------------------- C20 at module level: faults anywhere during add / close
 for h in ("add", "close"):
     add(f"wr_{h}_fault", ["C20", "C10", "C09"], ["tu/writer_step.c", "$REPO/mtbl/varint.c"], f"h_writer_{h}_fault", unwind=12, unwindset={"_write_all.0": 4}, defines=["VG_WRITE_FAULTS=1"], timeout=900,
-        strength=f"B: one mtbl_writer_{'add' if h == 'add' else 'destroy'} from an arbitrary writer state with one write(2) fault event (EINTR, short write of any length, hard error) placed anywhere; key length <= 4",
+        strength=f"B: one mtbl_writer_{'add' if h == 'add' else 'destroy'} from an arbitrary writer state with one write(2) fault event (EINTR, short write accepting one byte, hard error) placed anywhere; key length <= 4",
         functions=WR_STEP_FUNCS + (["mtbl_writer_destroy", "_mtbl_writer_finish"] if h == "close" else []), assumptions=WR_STEP_ASSUME[:3] + ["POSIX write(2): -1 with an errno, or 1..count bytes accepted"], replay="c20")
 # ---------------------------------------------------------------- libmy/heap.c on its own (heaps larger than the merger harnesses reach)
 for op, nm, hn, tier in ((0, "push", 8, "quick"), (1, "pop", 8, "quick"), (2, "replace", 8, "quick"), (3, "heapify", 6, "quick"), (3, "heapify8", 8, "thorough"), (4, "misc", 8, "quick")):
@@ -270,9 +270,10 @@ for op, nm, hn, tier in ((0, "push", 8, "quick"), (1, "pop", 8, "quick"), (2, "r
         assumptions=["comparator = total preorder on symbolic int keys (the merger's comparator is a total preorder on keys: group bytes_compare)", "ptrvec growth cut; growth: group vec_step",
                      "slot i holds item i (any arrangement of distinct items is this one up to renaming)"])
 # ---------------------------------------------------------------- writer sessions through the public interface only (robust to internal reorganisation)
-add("wr_session", ["C10", "C01", "C09", "C08", "C18"], ["tu/writer_session.c", "$REPO/mtbl/varint.c"], "h_writer_session", unwind=12, timeout=1200, slice=2,
-    strength="B: sessions mtbl_writer_init_fd (any start offset, pooled or not) + <= 3 mtbl_writer_add (symbolic keys <= 4 bytes, accepted or refused, any block size) + mtbl_writer_destroy; compression none",
-    functions=["mtbl_writer_init_fd", "mtbl_writer_add", "mtbl_writer_destroy", "_mtbl_writer_finish"] + WR_STEP_FUNCS[1:], assumptions=WR_STEP_ASSUME[:4] + ["dup/lseek modelled (POSIX)"], replay="c10")
+for nm, na, tier in (("wr_session", 2, "quick"), ("wr_session3", 3, "thorough")):
+    add(nm, ["C10", "C01", "C09", "C08", "C18"], ["tu/writer_session.c", "$REPO/mtbl/varint.c"], "h_writer_session", unwind=12, timeout=1500, slice=2, tier=tier, defines=[f"VG_ADDS={na}"],
+        strength=f"B: sessions mtbl_writer_init_fd (any start offset, pooled or not) + <= {na} mtbl_writer_add (symbolic keys <= 4 bytes, accepted or refused, any block size) + mtbl_writer_destroy; compression none",
+        functions=["mtbl_writer_init_fd", "mtbl_writer_add", "mtbl_writer_destroy", "_mtbl_writer_finish"] + WR_STEP_FUNCS[1:], assumptions=WR_STEP_ASSUME[:4] + ["dup/lseek modelled (POSIX)"], replay="c10")
 add("bb_add_dfcc", ["C09", "C01", "C11"], ["tu/bb_add_dfcc.c"], "h_bb_add_dfcc", mode="dfcc", enforce="block_builder_add/block_builder_add__spec",
     replace=["uint64_vec_add/uint64_vec_add__cap", "ubuf_reserve/ubuf_reserve__cap", "ubuf_advance/ubuf_advance__cap", "mtbl_varint_encode32/mtbl_varint_encode32__cap", "memcpy/memcpy__cap",
              "ubuf_reset/ubuf_reset__cap", "ubuf_append/ubuf_append__cap"],
@@ -287,3 +288,13 @@ add("info_print", ["C10"], ["tu/info_step.c"], "h_info_print", unwind=14, timeou
 add("merge_tool", ["C04", "C18"], ["tu/merge_tool.c"], "h_merge_tool", unwind=6, timeout=300, repo_assert="L",
     strength="B: src/mtbl_merge.c merge() over a merger iterator of <= 4 entries, the writer refusing at any position", functions=["merge (src/mtbl_merge.c)"], assumptions=["merger, iterator and writer are recording stubs (their own checks: mg_*, wr_*)"])
 add("merge_tool_func", ["C04"], ["tu/merge_tool.c"], "h_merge_func", unwind=6, timeout=300, strength="U", functions=["merge_func (src/mtbl_merge.c)"], assumptions=[])
+add("bb_finish_dfcc", ["C09", "C11", "C01"], ["tu/bb_finish_dfcc.c"], "h_bb_finish_dfcc", mode="dfcc", enforce="block_builder_finish/block_builder_finish__spec",
+    replace=["mtbl_fixed_encode32/mtbl_fixed_encode32__cap", "mtbl_fixed_encode64/mtbl_fixed_encode64__cap", "ubuf_advance/ubuf_advance__cap", "ubuf_reserve/ubuf_reserve__cap", "ubuf_detach/ubuf_detach__cap"],
+    loops="loops/bb_finish.json", unwind=16, timeout=900, slice=1, strength="U", functions=["block_builder_finish", "block_builder_current_size_estimate"],
+    assumptions=["fixed-width encoders and vector operations replaced by capture contracts (own checks: c16_fixed, vec_step); up to 2^28 restart points, up to 2^50 bytes of entries (both restart-array regimes)",
+                 "builder invariant assumed: every restart offset lies inside the entry bytes (established by block_builder_add: group bb_add_dfcc records the offset == current size)"])
+add("so_add_dfcc", ["C06"], ["tu/sorter_add_dfcc.c"], "h_sorter_add_dfcc", mode="dfcc", enforce="mtbl_sorter_add/mtbl_sorter_add__spec",
+    replace=["my_malloc/my_malloc__cap", "memcpy/memcpy__cap", "entry_vec_append/entry_vec_append__cap", "_mtbl_sorter_flush/_mtbl_sorter_flush__cap"],
+    unwind=16, timeout=900, slice=1, strength="U", functions=["mtbl_sorter_add"],
+    assumptions=["allocation, memcpy, the vector append and _mtbl_sorter_flush replaced by capture contracts (flush / chunk writing: groups so_chunk_*, so_add_ne*); key and value lengths <= UINT_MAX (larger ones stop at the function's own assert)",
+                 "the spill rule is stated over the batch after the add: entry bytes + pointer vector bytes >= memory limit"])
